@@ -10,6 +10,6 @@ func extractCost(pkgs map[string]*Pkg) {
 		miss("pkg_rfc1035label")
 		return
 	}
-	// `if len(label) > maxNameLength { return error }` inside the decoding loop
-	p.factCmp("c09LabelCap", "labelsFromBytes", "len(label)")
+	// `if label.Len() > maxNameLength { return error }` inside the decoding loop
+	p.factCmpOp("c09LabelCap", "labelsFromBytes", "label.Len()", ">")
 }
